@@ -805,7 +805,9 @@ pub fn run_event(toks: &[T], src: &str) -> Value {
 fn run_event_named(prog: &[Value], src: &str, extra: &[(String, i64)]) -> Value {
     let mut vm = vmh::new_vm(&[], &[]);
     let _ = vmh::run_src::<vmh::HStrict>(&mut vm, "prelude.tex", PRELUDE, 10_000);
-    let r = vmh::run_src::<vmh::HStrict>(&mut vm, "prog.tex", src, 200_000);
+    // few steps: the programs are small, the model gives up after 1500 (a runaway recursion through the
+    // number scanner - \def\a#1{#1#1\a\count1 }\a\count - must end long before the stack does)
+    let r = vmh::run_src::<vmh::HStrict>(&mut vm, "prog.tex", src, 4_000);
     let errat = vmh::first_err_at();
     let (fatal, budget, panic) = match &r.outcome {
         vmh::Outcome::Ok => (0, 0, None),
@@ -836,6 +838,17 @@ fn run_event_named(prog: &[Value], src: &str, extra: &[(String, i64)]) -> Value 
 }
 
 fn events(args: &Args) -> i32 {
+    // the VM recurses (number scanner inside number scanner ...): give it room
+    let args2 = Args { cmd: args.cmd.clone(), kv: args.kv.clone() };
+    std::thread::Builder::new()
+        .stack_size(1 << 30)
+        .spawn(move || events_impl(&args2))
+        .expect("spawn")
+        .join()
+        .unwrap_or(4)
+}
+
+fn events_impl(args: &Args) -> i32 {
     quiet_panics();
     let seed: u64 = args.num("seed", 1);
     let n: u64 = args.num("n", 1000);
@@ -843,13 +856,20 @@ fn events(args: &Args) -> i32 {
     let mut out = Out::new(args.str("out"));
     let mut made = 0;
     let mut unrenderable = 0u64;
+    let from: u64 = args.num("from", 0); // debugging: generate, but do not run, the first `from` programs
+    let show = args.str("show").is_some();
     while made < n {
         let toks = gen_program(&mut rng);
         let Some(src) = render(&toks) else {
             unrenderable += 1;
             continue;
         };
-        out.line(&run_event(&toks, &src));
+        if made >= from {
+            if show {
+                eprintln!("program {made}: {src}");
+            }
+            out.line(&run_event(&toks, &src));
+        }
         made += 1;
     }
     out.flush();
@@ -862,6 +882,16 @@ fn events(args: &Args) -> i32 {
 /// model's tokens - control sequences that are neither modelled primitives nor built-ins of the VM become the
 /// user names, in order of appearance - and run like a generated program.
 fn suite(args: &Args) -> i32 {
+    let args2 = Args { cmd: args.cmd.clone(), kv: args.kv.clone() };
+    std::thread::Builder::new()
+        .stack_size(1 << 30)
+        .spawn(move || suite_impl(&args2))
+        .expect("spawn")
+        .join()
+        .unwrap_or(4)
+}
+
+fn suite_impl(args: &Args) -> i32 {
     use texlang::token::lexer::{self, Lexer};
     use texlang::token::{trace, CommandRef, CsNameInterner, Value as TV};
     quiet_panics();
